@@ -100,6 +100,90 @@ def ulps(x, ks=(-2, -1, 0, 1, 2)):
     return out
 
 
+def ladder(x, scale=None, ulp=(-2, -1, 0, 1, 2), rel=(1e-14, 1e-12, 1e-10, 1e-8, 1e-6), tiny=()):
+    """values approaching the special coordinate x: exact, a few ulp, relative offsets (scale defaults to |x|), and (around 0) absolute tiny values"""
+    sc = abs(x) if scale is None else scale
+    out = list(ulps(x, ulp))
+    for r in rel:
+        out += [x + r * sc, x - r * sc]
+    for t in tiny:
+        out += [x + t, x - t]
+    return out
+
+
+TINY = (5e-324, 1e-310, 1e-200, 1e-160, 1e-100, 1e-30)
+
+
+def approach_observers(kind, p):
+    """second family (added after the near-edge / near-wire defects): every special coordinate approached on a ladder of offsets from a few ulp to 1e-6
+    relative, and absolute tiny / subnormal offsets from coordinates that are 0"""
+    pts = []
+    if kind == "Cuboid":
+        a, b, c = np.array(p["dimension"]) / 2
+        xs, ys = ladder(a, ulp=(0,)), ladder(b, ulp=(0,))
+        for x, y in itertools.product(xs, ys):
+            pts += [(x, y, 0.3 * c), (-x, y, -0.3 * c)]
+        for y, z in itertools.product(ys, ladder(c, ulp=(0,))):
+            pts += [(0.2 * a, y, z), (3 * a, -y, z)]  # edge along x, and its extension beyond the corner
+        for t in TINY:
+            pts += [(a, b, t), (a, t, 0.1 * c), (t, b, c)]
+    elif kind in ("Cylinder", "CylinderSegment"):
+        if kind == "Cylinder":
+            r0, h = p["dimension"][0] / 2, p["dimension"][1]
+            radii, phis = [r0], [0.0, 2.0]
+        else:
+            r1, r2, h, p1, p2 = p["dimension"]
+            radii, phis = [r for r in (r1, r2) if r > 0], [np.deg2rad(p1), np.deg2rad((p1 + p2) / 2)]
+        for rr in radii:
+            for r, z, ph in itertools.product(ladder(rr, ulp=(0,)), ladder(h / 2, ulp=(0,)) + [0.0, 0.3 * h], phis):
+                pts.append((r * np.cos(ph), r * np.sin(ph), z))
+            for t in TINY:
+                pts += [(rr, 0.0, t), (rr, 0.0, h / 2 - t), (rr * np.cos(phis[0]), rr * np.sin(phis[0]), t)]
+        for t in TINY:
+            pts += [(t, 0.0, 0.0), (t, 0.0, h / 2), (0.0, t, 0.3 * h)]
+    elif kind == "Sphere":
+        r = p["diameter"] / 2
+        for v in ladder(r, ulp=(0,)):
+            pts += [(v, 0, 0), (0, 0, -v), (v / np.sqrt(3),) * 3]
+        pts += [(t, 0, 0) for t in TINY]
+    elif kind == "Circle":
+        r0 = p["diameter"] / 2
+        for r, z in itertools.product(ladder(r0), [0.0] + [s_ * t for t in TINY for s_ in (1, -1)] + [s_ * r0 * f for f in (1e-16, 1e-14, 1e-12, 1e-9, 1e-6) for s_ in (1, -1)]):
+            if r == r0 and z == 0:
+                continue
+            pts += [(r, 0, z), (0, -r, z)]
+        for t in TINY:
+            pts += [(t, 0, 0.0), (t, 0, r0), (0, t, 1e-300)]
+    elif kind == "Polyline":
+        V = np.array(p["vertices"], dtype=float)
+        for A, B in zip(V[:-1], V[1:]):
+            d = B - A
+            L = np.linalg.norm(d)
+            if L == 0:
+                continue
+            e = np.cross(d, [0.3, 0.2, 0.9])
+            e /= np.linalg.norm(e)
+            for t in (-1.0, -1e-9, 0.0, 0.5, 1.0, 1 + 1e-9, 2.0):
+                for s_ in [f * L for f in (1e-16, 1e-14, 1e-12, 1e-10, 1e-8, 1e-6)] + list(TINY):
+                    pts.append(tuple(A + t * d + s_ * e))
+    elif kind in ("Triangle", "Tetrahedron", "TriangularMesh"):
+        V = np.array(p["vertices"], dtype=float)
+        faces = [(0, 1, 2)] if kind == "Triangle" else [(0, 2, 1), (0, 1, 3), (1, 2, 3), (0, 3, 2)]
+        for f in faces:
+            A, B, C = V[list(f)]
+            n = np.cross(B - A, C - A)
+            n /= np.linalg.norm(n)
+            cen = (A + B + C) / 3
+            L = np.linalg.norm(B - A)
+            inpl = np.cross(n, B - A)
+            inpl /= np.linalg.norm(inpl)
+            for s_ in [f_ * L for f_ in (1e-16, 1e-14, 1e-12, 1e-10, 1e-8, 1e-6)] + list(TINY):
+                pts += [tuple(cen + s_ * n), tuple(cen - s_ * n), tuple((A + B) / 2 + s_ * n), tuple((A + B) / 2 + s_ * inpl), tuple((A + B) / 2 - s_ * inpl),
+                        tuple(A + 2 * (B - A) + s_ * n), tuple(A + 2 * (B - A) + s_ * inpl)]
+    pts = np.array(pts, dtype=float).reshape(-1, 3)
+    return pts[np.isfinite(pts).all(axis=1)] if len(pts) else pts
+
+
 def special_observers(kind, p):
     """observer sets (local frame) exactly on and within 2 ulp of every special set of the geometry"""
     pts = []
@@ -203,43 +287,112 @@ def configs():
     return out
 
 
+class _Timeout(BaseException):
+    pass
+
+
+def timed(fn, seconds):
+    """fn() under a wall-clock limit (SIGALRM; the iteration loops of the library are Python loops, so the alarm interrupts them); raises _Timeout"""
+    import signal
+
+    def handler(signum, frame):
+        raise _Timeout()
+
+    old = signal.signal(signal.SIGALRM, handler)
+    signal.setitimer(signal.ITIMER_REAL, seconds)
+    try:
+        return fn()
+    finally:
+        signal.setitimer(signal.ITIMER_REAL, 0)
+        signal.signal(signal.SIGALRM, old)
+
+
+TIME_LIMIT_S = 20.0
+
+
+def _one_config(args):
+    """all observers of one source configuration, both fields -> (evaluations, list of failures)"""
+    import warnings
+
+    import magpylib as magpy
+
+    warnings.simplefilter("ignore")
+    kind, p = args
+    bad, n = [], 0
+    try:
+        src = make(kind, p)
+    except Exception:  # pylint: disable=broad-except
+        return None  # rejected at construction: not an evaluation
+    obs = special_observers(kind, p)
+    app = approach_observers(kind, p) if tuple(p["exc"]) == (0.1, 0.2, 0.3) else []
+    if len(app):
+        obs = np.concatenate([obs, app]) if len(obs) else app
+    if len(obs) == 0:
+        return None
+    for fld in "BH":
+        f = getattr(magpy, "get" + fld)
+        n += len(obs)
+        F = None
+        try:
+            with np.errstate(all="ignore"):
+                t0 = time.time()
+                F = timed(lambda: f(src, obs), TIME_LIMIT_S)
+                dt = time.time() - t0
+            if F.shape != (len(obs), 3):
+                bad.append((kind, p, None, fld, f"shape {F.shape}"))
+                continue
+            if dt > TIME_LIMIT_S:
+                bad.append((kind, p, None, fld, f"took {dt:.1f} s for {len(obs)} observers"))
+        except _Timeout:
+            F = None
+        except Exception:  # pylint: disable=broad-except
+            F = None
+        if F is None:
+            # the batch raised or did not terminate: one observer at a time (each with its own limit) to find the rows responsible
+            F = np.zeros((len(obs), 3))
+            nfail = 0
+            for i, o_ in enumerate(obs):
+                try:
+                    with np.errstate(all="ignore"):
+                        F[i] = timed(lambda o_=o_: f(src, o_), 2.0)
+                except _Timeout:
+                    bad.append((kind, p, o_.tolist(), fld, "no result within 2 s (iteration does not terminate)"))
+                    nfail += 1
+                except Exception as e:  # pylint: disable=broad-except
+                    bad.append((kind, p, o_.tolist(), fld, f"raised {type(e).__name__}: {str(e)[:60]}"))
+                    nfail += 1
+                if nfail > 400:
+                    break
+        nf = ~np.isfinite(F).all(axis=1)
+        for i in np.where(nf)[0]:
+            bad.append((kind, p, obs[i].tolist(), fld, f"non-finite {F[i].tolist()}"))
+    return n, bad
+
+
 def native_special(seed, tier, only=None):
     """returns (evaluations, distinct configs, list of (kind, params, observer, field, message))"""
+    import concurrent.futures as cf
+    import multiprocessing as mp
+    import os
     import warnings
 
     import magpylib as magpy
 
     warnings.simplefilter("ignore")
     bad, n, nc = [], 0, 0
-    for kind, p in configs():
-        if only and kind not in only:
-            continue
-        try:
-            src = make(kind, p)
-        except Exception as e:  # pylint: disable=broad-except
-            continue  # rejected at construction: not an evaluation
-        obs = special_observers(kind, p)
-        if len(obs) == 0:
+    cfgs = [(kind, p) for kind, p in configs() if not only or kind in only]
+    workers = min(int(os.environ.get("VERIF_WORKERS", "14")), os.cpu_count() or 4)
+    if workers > 1:
+        with cf.ProcessPoolExecutor(max_workers=workers, mp_context=mp.get_context("fork")) as ex:
+            results = list(ex.map(_one_config, cfgs))
+    else:
+        results = [_one_config(c) for c in cfgs]
+    for r in results:
+        if r is None:
             continue
         nc += 1
-        for fld in "BH":
-            t0 = time.time()
-            try:
-                with np.errstate(all="ignore"):
-                    F = getattr(magpy, "get" + fld)(src, obs)
-            except Exception as e:  # pylint: disable=broad-except
-                bad.append((kind, p, None, fld, f"raised {type(e).__name__}: {str(e)[:80]}"))
-                continue
-            dt = time.time() - t0
-            n += len(obs)
-            if F.shape != (len(obs), 3):
-                bad.append((kind, p, None, fld, f"shape {F.shape}"))
-                continue
-            if dt > 20:
-                bad.append((kind, p, None, fld, f"took {dt:.1f} s for {len(obs)} observers"))
-            nf = ~np.isfinite(F).all(axis=1)
-            for i in np.where(nf)[0][:3]:
-                bad.append((kind, p, obs[i].tolist(), fld, f"non-finite {F[i].tolist()}"))
+        n += r[0]
+        bad += r[1]
     # zero-size sources through the functional interface (the constructors reject some of them)
     if not only:
         obs = np.array([(0.0, 0.0, 0.0), (0.3, 0.2, 0.1), (0.0, 0.5, 0.0), (2.0, 0.0, 0.0)])
@@ -262,14 +415,59 @@ def native_special(seed, tier, only=None):
 
 REPLAY = """import sys, json
 import numpy as np, magpylib as magpy
-from checks.c15 import make
+from checks.c15 import make, timed, _Timeout
 kind, p, o, fld = {kind!r}, json.loads({p!r}), {o!r}, {fld!r}
 p['exc'] = tuple(p['exc'])
-with np.errstate(all='ignore'):
-    F = getattr(magpy, 'get' + fld)(make(kind, p), o)
+try:
+    with np.errstate(all='ignore'):
+        F = timed(lambda: getattr(magpy, 'get' + fld)(make(kind, p), o), 10.0)
+except _Timeout:
+    print(kind, p, 'observer', o, '-> no result within 10 s')
+    sys.exit(1)
 print(kind, p, 'observer', o, '->', F)
 sys.exit(0 if np.isfinite(F).all() else 1)
 """
+
+
+def _rel_to_special(kind, p, o):
+    """relative distances of the observer to the special coordinate values of the geometry (0 = exactly on that one)"""
+    x, y, z = o
+    if kind == "CylinderSegment":
+        r1, r2, h, p1, p2 = p["dimension"]
+        r, ph = np.hypot(x, y), np.arctan2(y, x)
+        ds = [abs(r - r2) / r2, abs(abs(z) - h / 2) / h, r / r2]
+        if r1 > 0:
+            ds.append(abs(r - r1) / r2)
+        for pp in (p1, p2):
+            d = (ph - np.deg2rad(pp) + np.pi) % (2 * np.pi) - np.pi
+            ds.append(abs(d))
+        return ds
+    if kind == "Cuboid":
+        a, b, c = np.array(p["dimension"], dtype=float) / 2
+        return [abs(abs(x) - a) / a, abs(abs(y) - b) / b, abs(abs(z) - c) / c]
+    return []
+
+
+def region_match(k, b):
+    """is the failing case b = (kind, params, observer, field, message) inside the recorded region of the known finding k?"""
+    reg = k.get("region")
+    if not reg or b[2] is None or reg["kind"] != b[0]:
+        return False
+    if reg.get("dimension_aspect_min"):
+        d = np.array(b[1]["dimension"], dtype=float)
+        if d.max() / d.min() < reg["dimension_aspect_min"]:
+            return False
+    if reg.get("diameter") is not None and b[1].get("diameter") != reg["diameter"]:
+        return False
+    if "rel_max" in reg:
+        ds = _rel_to_special(b[0], b[1], b[2])
+        if not any(reg.get("rel_min", 0.0) <= d <= reg["rel_max"] for d in ds):
+            return False
+    if "observer_norm_max" in reg and np.linalg.norm(b[2]) > reg["observer_norm_max"]:
+        return False
+    if "observer_norm_min" in reg and np.linalg.norm(b[2]) < reg["observer_norm_min"]:
+        return False
+    return any(tok in b[4] for tok in reg["failure_kinds"])
 
 
 def main(tier, seed):
@@ -296,8 +494,10 @@ def main(tier, seed):
         kid = None
         for k in known:
             for wk, wg, wo in k["witnesses"]:
-                if wk == b[0] and json.dumps(wg, sort_keys=True) == geom(b[1]) and b[2] is not None and np.allclose(wo, b[2], rtol=1e-12, atol=0):
+                if wk == b[0] and json.dumps(wg, sort_keys=True) == geom(b[1]) and b[2] is not None and np.allclose(wo, b[2], rtol=1e-12, atol=1e-300):
                     kid = k
+        if kid is None:
+            kid = next((k for k in known if region_match(k, b)), None)
         if kid:
             hit.add(kid["id"])
         else:
